@@ -133,6 +133,34 @@ def run(ctx):
         cj.append(j)
         world.clear_pending()
     ctx.correspond("dispatch", IMPORTS, "metric_case", "check_metric_case", lits, cj, shard=100)
+    # the set of active processors is whatever it is AT THE HIT: processors added to / removed from the live plugin list
+    _RL, _RS, RecMetrics = e2.plugin_classes()
+    for k in range(40 if ctx.thorough else 10):
+        world = e2.World(logger=False, spans=0, metrics=rng.choice([0, 1]))
+        action = LocationAction("tp-m", None, {"metrics": [MetricDefinition("hits", "COUNTER")], "fire_count": "2", "fire_period": "0"},
+                                LocationAction.ActionType.Metric)
+        world.install([Trigger(LineLocation("m.py", 7, Location.Position.START), [action])])
+        history, want_calls = [], 0
+        for step in range(rng.choice([2, 3, 4])):
+            change = rng.choice(["none", "append", "remove"])
+            if change == "append":
+                world.cfg.plugins.append(RecMetrics(world.log, "metrics%d" % (10 + step)))
+            elif change == "remove" and world.cfg.plugins:
+                world.cfg.plugins.pop()
+            nproc = len(world.cfg.plugins)
+            fired_before = e2.stats_of(action)[0]
+            world.event(e2.mk_frame("/app/m.py", "g", 7, {}), "line")
+            if nproc and fired_before < 2:
+                want_calls += nproc
+            history.append((change, nproc))
+        calls = len([1 for w, _t, _i, _p in world.log if w == "metric"])
+        j = dict(in_place_plugin_changes=history, calls=calls)
+        ctx.case(j, nontrivial=any(c != "none" for c, _n in history), bucket="live-plugin-list")
+        if calls != want_calls:
+            ctx.fail("plugin list changed in place between hits %r: %d reports reached the processors, %d are due (each permitted hit "
+                     "reports to the processors active at that hit; a hit with none active uses no budget)" % (history, calls, want_calls), j,
+                     kind="history", tag="stale-processor-flag")
+        world.clear_pending()
 
 
 def replay(ctx, data):
